@@ -48,6 +48,11 @@ let in_mode c m (vs : n list) : cell list =
 let expand c (wl : wev list) (t : string) : cell list =
   let rest k = String.sub t k (String.length t - k) in
   if t = "K" || t = "KL" then rep 96 (ncell (KeyB true))
+  else if t = "K13" then ncell (Clr (n_of_int 19)) :: rep 95 (ncell (KeyB true))
+  else if String.length t > 2 && String.sub t 0 2 = "KP" then begin
+    let k = int_of_string (String.sub t 2 (String.length t - 2)) in
+    let pre = List.filteri (fun i _ -> i < k) bt_prefix in
+    List.map (fun v -> ncell (Clr v)) pre @ rep (96 - k) (ncell (KeyB true)) end
   else if t = "KZ" then rep 96 (ncell (KeyB false))
   else if t = "R" then List.init 20 (fun k -> ncell (Rq1 (nat_of_int k)))
   else if t = "RX" then rep 20 (ncell Opq)
@@ -144,6 +149,14 @@ let () = each_line (fun line ->
       let r = run_script (init_in p) (parse_script sc) in
       let (w, lib) = summary r (chk = "1") in
       Printf.sprintf "a1:%s %s att=1 lib=%s" (String.concat "," (List.rev r.trace)) w lib
+    | "D" :: hs :: st :: chk :: sa :: sb :: _ ->
+      (* two incoming handshakes do not share anything: the product of two independent runs *)
+      let p = { hs_mode = mode_of_int (int_of_string hs); st_mode = mode_of_int (int_of_string st); retrying = false; retry_mode = Allow } in
+      let one sc =
+        let r = run_script (init_in p) (parse_script sc) in
+        let (w, lib) = summary r (chk = "1") in
+        Printf.sprintf "a1:%s %s att=1 lib=%s" (String.concat "," (List.rev r.trace)) w lib in
+      Printf.sprintf "A[%s] B[%s]" (one sa) (one sb)
     | "O" :: hs :: st :: chk :: sp :: sm :: _ ->
       let p0 = { hs_mode = mode_of_int (int_of_string hs); st_mode = mode_of_int (int_of_string st); retrying = false; retry_mode = Allow } in
       let sp = parse_script sp and sm = parse_script sm in
